@@ -1,12 +1,14 @@
 import Driver.Dates
 import Driver.Holidays
 import Driver.Duals
+import Driver.Curves
 open Drv
 
 structure St where
   dates : DateState := {}
   hols : HolState := {}
   duals : DualState := {}
+  curves : CurveState := {}
 
 def stepLine (st : St) (line : String) : St × String :=
   let toks := (line.trimAscii.toString.splitOn " ").filter (· ≠ "")
@@ -19,6 +21,9 @@ def stepLine (st : St) (line : String) : St × String :=
   | none =>
   match dualStep st.duals toks with
   | some (d, out) => ({ st with duals := d }, out)
+  | none =>
+  match curveStep st.duals st.curves toks with
+  | some (c, out) => ({ st with curves := c }, out)
   | none => (st, "bad-op")
 
 partial def loop (h : IO.FS.Stream) (out : IO.FS.Stream) (st : St) : IO Unit := do
